@@ -52,27 +52,17 @@ TARGETS = [
     ("wbmp", "image", "wbmp", 1, False),
     ("json", "token", "json", 1, False),
 ]
-MODEL_CONFIGS = [("xform", 1, False), ("hasher", 1, False), ("token", 1, False), ("twocoro", 1, False),
-                 ("image", 1, False), ("image", 2, False), ("image", 1, True)]
-
-# (kind, nf, hm) -> [(scenario, start_ok, quick depth, thorough depth)]
-PLAN = {
-    ("twocoro", 1, False): [("life", False, 4, 5), ("init", False, 3, 4), ("coro", True, 4, 5), ("misc", True, 3, 4)],
-    ("xform", 1, False): [("life", False, 4, 5), ("init", False, 3, 4), ("coro", True, 4, 5), ("misc", True, 3, 4)],
-    ("hasher", 1, False): [("life", False, 4, 5), ("init", False, 3, 4), ("misc", True, 4, 6)],
-    ("token", 1, False): [("life", False, 4, 5), ("coro", True, 4, 5), ("misc", True, 3, 4)],
-    ("image", 1, False): [("life", False, 4, 5), ("init", False, 3, 3), ("coro", True, 3, 4), ("susp", True, 4, 5), ("seq", True, 4, 5),
-                          ("misc", True, 3, 4)],
-    ("image", 2, False): [("seq", True, 4, 6), ("susp", True, 4, 5)],
-    ("image", 1, True): [("meta", True, 4, 5)],
-}
+# configuration names of WuffsObject.tla (CfgOf): the scenario alphabets and depths (Plan) live in the specification
+CONFIGS = {"xform": ("xform", 1, False), "hasher": ("hasher", 1, False), "token": ("token", 1, False), "twocoro": ("twocoro", 1, False),
+           "image1": ("image", 1, False), "image2": ("image", 2, False), "imagemeta": ("image", 1, True)}
+ALL_CONFIGS = "{" + ", ".join('"%s"' % c for c in sorted(CONFIGS)) + "}"
 
 MODULES = ["BASE", "ADLER32", "CRC32", "DEFLATE", "ZLIB", "GZIP", "LZW", "BZIP2", "SHA256", "GIF", "PNG", "BMP", "JPEG", "WBMP", "JSON"]
 
-PROP_CFG = ("SPECIFICATION Spec\nCONSTANTS\n  Kind = \"%s\"\n  NFrames = %d\n  HasMeta = %s\n  Scenario = \"full\"\n  StartOk = FALSE\n"
-            "  Depth = 14\n  DoExport = FALSE\nINVARIANT ModelOK\nVIEW PropView\nCHECK_DEADLOCK FALSE\n")
-EXPORT_CFG = ("SPECIFICATION Spec\nCONSTANTS\n  Kind = \"%s\"\n  NFrames = %d\n  HasMeta = %s\n  Scenario = \"%s\"\n  StartOk = %s\n"
-              "  Depth = %d\n  DoExport = TRUE\nINVARIANT ModelOK Export\nCHECK_DEADLOCK FALSE\n")
+PROP_CFG = ("SPECIFICATION Spec\nCONSTANTS\n  Configs = %s\n  Tier = \"prop\"\n  SimDepth = 0\n  DoExport = FALSE\n"
+            "INVARIANT ModelOK\nVIEW PropView\nCHECK_DEADLOCK FALSE\n")
+EXPORT_CFG = ("SPECIFICATION XSpec\nCONSTANTS\n  Configs = %s\n  Tier = \"%s\"\n  SimDepth = %d\n  DoExport = TRUE\n"
+              "INVARIANT Export\nCHECK_DEADLOCK FALSE\n")
 SURVEY_CFG = "SPECIFICATION TSpec\nCONSTANTS\n  TreeFile = \"%s\"\nINVARIANT Report\nCHECK_DEADLOCK FALSE\n"
 CONFIRM_CFG = "SPECIFICATION TSpec\nCONSTANTS\n  TreeFile = \"%s\"\nINVARIANT Accepted\nCHECK_DEADLOCK FALSE\n"
 
@@ -164,6 +154,7 @@ def make_inputs(ctx):
 
 # ----------------------------------------------------------------------------- build
 def build(ctx, variant):
+    t0 = time.time()
     tools = stdbuild.build_tools(ctx)
     root = stdbuild.gen_std(ctx, tools)
     two = ctx.subdir("twocoro")
@@ -185,60 +176,54 @@ def build(ctx, variant):
     if exe_std is None or exe_two is None:
         # generated C that gcc rejects is C11's clause; here it is a failed precondition
         raise ToolingError("driver / generated C does not compile:\n" + ((log1 if exe_std is None else log2) or "")[-3000:])
+    ctx.log("drivers built (%s) in %.0f s" % (variant, time.time() - t0))
     return {"std": exe_std, "twocoro": exe_two}
 
 
 # ----------------------------------------------------------------------------- model side
 def model_side(ctx):
-    def one(cfg):
-        kind, nf, hm = cfg
-        name = "p-%s-%d-%d.cfg" % (kind, nf, hm)
-        return ctx.tlc_ok("WuffsObject", cfg=name, data={name: PROP_CFG % (kind, nf, tla_bool(hm))}, workers=2, timeout=1800,
-                          label="WuffsObject properties kind=%s nf=%d meta=%s" % (kind, nf, hm))
-    with cf.ThreadPoolExecutor(max_workers=4) as ex:
-        res = list(ex.map(one, MODEL_CONFIGS))
-    return res
+    """The safety properties of the protocol on the complete model (full alphabet) of every configuration."""
+    return ctx.tlc_ok("WuffsObject", cfg="p.cfg", data={"p.cfg": PROP_CFG % ALL_CONFIGS}, workers=6, timeout=3000,
+                      label="WuffsObject safety properties (all configurations, full alphabet)")
 
 
-def export_histories(ctx, cfg, scenario, start_ok, depth, simulate=None):
-    """TLC enumerates every history of the scenario alphabet up to `depth`; returns
-    [{"mem": "Zero"|"Garbage"|"Ok", "steps": [action records], "exp": [[patterns]...]}], one per distinct
-    action sequence (the model's branches of one sequence are merged: exp = what any branch allows)."""
-    kind, nf, hm = cfg
-    name = "x-%s-%d-%d-%s.cfg" % (kind, nf, hm, scenario)
-    label = "export kind=%s nf=%d meta=%s scenario=%s depth=%d%s" % (kind, nf, hm, scenario, depth, " simulate" if simulate else "")
+def export_histories(ctx, tier, simulate=None, simdepth=0):
+    """TLC enumerates every history of every scenario alphabet of Plan up to its depth (XSpec: one behaviour per
+    action sequence).  Returns {(config, scenario, depth): [{"mem", "steps": [action records], "exp": [[patterns]]}]}."""
+    label = "export tier=%s%s" % (tier, " simulate" if simulate else "")
     kw = {}
     if simulate:
-        kw = {"simulate": "num=%d" % simulate, "depth": depth + 1}
-    res = ctx.tlc("WuffsObject", cfg=name, data={name: EXPORT_CFG % (kind, nf, tla_bool(hm), scenario, tla_bool(start_ok), depth)},
-                  workers=4, timeout=3000, label=label, heap="4g", **kw)
+        kw = {"simulate": "num=%d" % simulate, "depth": simdepth + 1}
+    res = ctx.tlc("WuffsObject", cfg="x.cfg", data={"x.cfg": EXPORT_CFG % (ALL_CONFIGS, tier, simdepth)}, workers=8, timeout=6000,
+                  label=label, heap="6g", **kw)
     if res["error"]:
         raise ToolingError("TLC error in %s:\n%s" % (label, res["error"]))
     if res["violated"] or res["deadlock"]:
-        raise ToolingError("WuffsObject.tla violates its own property %s in %s:\n%s" % (res["violated"], label, res["out"][-3000:]))
+        raise ToolingError("WuffsObject.tla: %s in %s:\n%s" % (res["violated"], label, res["out"][-3000:]))
     universe = None
-    by = {}
-    for line in res["out"].splitlines():
+    out = {}
+    seen = set()
+    lines = res["out"].splitlines()
+    res["out"] = ""
+    for line in lines:
         if not (line.startswith('"{') and line.endswith('}"')):
             continue
         o = json.loads(line[1:-1].replace('\\"', '"').replace("\\\\", "\\"))
         if "universe" in o:
             universe = o["universe"]
             continue
-        key = (o["s0"], tuple(o["h"]))
-        e = by.get(key)
-        if e is None:
-            by[key] = [set([p]) for p in o["e"]]
-        else:
-            for i, p in enumerate(o["e"]):
-                e[i].add(p)
-    res["out"] = ""
-    if universe is None or not by:
+        key = (o["c"], o["sc"], o["d"], o["s0"], tuple(o["h"]))
+        if key in seen:
+            continue          # (simulation draws with replacement)
+        seen.add(key)
+        out.setdefault((o["c"], o["sc"], o["d"]), []).append(o)
+    if universe is None or not out:
         raise ToolingError("no history exported by " + label)
-    hs = []
-    for (s0, h), exp in sorted(by.items()):
-        hs.append({"mem": s0, "steps": [universe[i - 1] for i in h], "exp": [sorted(x) for x in exp]})
-    return hs, res
+    res2 = {}
+    for key, hs in out.items():
+        u = universe[CONFIGS[key[0]][0]]
+        res2[key] = [{"mem": o["s0"], "steps": [u[i - 1] for i in o["h"]], "exp": o["e"]} for o in hs]
+    return res2
 
 
 def step_str(a):
@@ -361,44 +346,33 @@ def history_key(target, evs, upto):
 def run(ctx):
     thorough = ctx.tier == "thorough"
     t0 = time.time()
-    with cf.ThreadPoolExecutor(max_workers=2) as ex:
-        fb = ex.submit(build, ctx, "asan")
+    with cf.ThreadPoolExecutor(max_workers=3) as ex:
+        # quick: plain -O0 build (6 s instead of 50 s of compilation); thorough: ASan + UBSan watch the same histories
+        fb = ex.submit(build, ctx, "asan" if thorough else "o0")
         fm = ex.submit(model_side, ctx)
-        exes = fb.result()
+        fx = ex.submit(export_histories, ctx, "thorough" if thorough else "quick")
         props = fm.result()
-    ctx.log("built drivers; model properties hold for %d object kinds (%d distinct model states)" % (len(props), sum(r["distinct"] for r in props)))
+        exports = fx.result()
+        exes = fb.result()
+    ctx.log("model properties hold (%d distinct model states, %d transitions, %.0f s); drivers built" % (
+        props["distinct"], props["generated"], props["wall_s"]))
     paths = make_inputs(ctx)
-
-    # ---- TLC enumerates the histories
-    exports = {}
-    todo = [(cfg, sc, so, (dt if thorough else dq)) for cfg, plan in PLAN.items() for (sc, so, dq, dt) in plan]
-
-    def exp_one(t):
-        cfg, sc, so, d = t
-        hs, res = export_histories(ctx, cfg, sc, so, d)
-        return (cfg, sc), hs, d
-    with cf.ThreadPoolExecutor(max_workers=4) as ex:
-        for key, hs, d in ex.map(exp_one, todo):
-            exports[key] = (hs, d)
-    nhist = sum(len(v[0]) for v in exports.values())
-    ctx.log("TLC exported %d histories over %d (kind, scenario) alphabets" % (nhist, len(exports)))
+    nhist = sum(len(v) for v in exports.values())
+    ctx.log("TLC exported %d histories over %d (configuration, scenario) alphabets" % (nhist, len(exports)))
     sim = {}
     if thorough:
-        for cfg, sc, so, d in [(("twocoro", 1, False), "full", False, 8), (("xform", 1, False), "full", False, 8),
-                               (("image", 2, False), "full", True, 9), (("image", 1, True), "full", True, 9),
-                               (("hasher", 1, False), "full", False, 8), (("token", 1, False), "full", False, 8)]:
-            hs, res = export_histories(ctx, cfg, sc, so, d, simulate=3000)
-            sim[(cfg, sc)] = (hs, d)
-        ctx.log("TLC -simulate exported %d deeper histories" % sum(len(v[0]) for v in sim.values()))
+        sim = export_histories(ctx, "sim", simulate=20000, simdepth=8)
+        ctx.log("TLC -simulate exported %d deeper histories" % sum(len(v) for v in sim.values()))
 
     # ---- which object runs what: exhaustive on the test object and on one object per kind, a sample on the rest
     rng = ctx.rng
     by_cfg = {}
     only = os.environ.get("C08_ONLY")     # development aid: restrict the objects
+    names = {v: k for k, v in CONFIGS.items()}
     for t in TARGETS:
         if only and t[0] not in only.split(","):
             continue
-        by_cfg.setdefault((t[1], t[3], t[4]), []).append(t)
+        by_cfg.setdefault(names[(t[1], t[3], t[4])], []).append(t)
     primary = {}
     for cfg, ts in by_cfg.items():
         primary[cfg] = ts[ctx.seed % len(ts)]
@@ -406,7 +380,7 @@ def run(ctx):
     jid = 0
     coverage = {}
     for allexp, tag in ((exports, "all"), (sim, "sim")):
-        for (cfg, sc), (hs, d) in sorted(allexp.items()):
+        for (cfg, sc, d), hs in sorted(allexp.items()):
             for t in by_cfg.get(cfg, []):
                 full = thorough or t == primary[cfg] or t[1] == "twocoro"
                 sel = hs if full else rng.sample(hs, min(len(hs), max(200, len(hs) // 20)))
@@ -419,7 +393,7 @@ def run(ctx):
     # ---- the real code
     ev = {}
     ev.update(stdtrace.run_jobs(ctx, exes["std"], jobs_std, sanitizer=True, shards=min(NCPU, 12)))
-    ev.update(stdtrace.run_jobs(ctx, exes["twocoro"], jobs_two, sanitizer=True, shards=4))
+    ev.update(stdtrace.run_jobs(ctx, exes["twocoro"], jobs_two, sanitizer=True, shards=8))
     ctx.log("driver processes finished")
     ncalls = 0
     for jid_, evs in ev.items():
@@ -477,10 +451,11 @@ def run(ctx):
         "transitions": sum(t["generated"] for t in ctx.tlc_stats),
         "traces_validated_against_impl": len(ev),
         "samples": samples,
-        "model_property_states_per_kind": {"%s nf=%d meta=%s" % c: r["distinct"] for c, r in zip(MODEL_CONFIGS, props)},
+        "model_property_states": props["distinct"],
+        "model_property_transitions": props["generated"],
         "histories_exported_by_tlc": nhist,
-        "histories_from_simulation": sum(len(v[0]) for v in sim.values()),
-        "depth_per_alphabet": {"%s nf=%d meta=%s / %s" % (c[0], c[1], c[2], sc): d for (c, sc), (hs, d) in sorted(exports.items())},
+        "histories_from_simulation": sum(len(v) for v in sim.values()),
+        "histories_per_alphabet": {"%s / %s / depth %d" % k: len(v) for k, v in sorted(exports.items())},
         "jobs": coverage,
         "public_calls_logged": ncalls,
         "trace_tree_nodes_validated_by_tlc": total_nodes,
